@@ -501,6 +501,11 @@ class SArray:
             if isinstance(x, real_np.ndarray):
                 raise OutsideModel("symbolic index into a multi-dimensional array")
             return x
+        ies = z3.simplify(ie)
+        if z3.is_bv_value(ies) or z3.is_int_value(ies):
+            # concrete index (in bounds: the caller has excluded the out-of-bounds case on this path)
+            j = ies.as_signed_long() if (z3.is_bv_value(ies) and signed) else ies.as_long()
+            return at(j + n if j < 0 else j)
         res = at(n - 1)
         bits = ie.size() if z3.is_bv(ie) else None
         for j in reversed(range(n - 1)):
@@ -1163,6 +1168,10 @@ def forked_unique(vals, dtype):
     def eqz(a, b):
         c = elem_eq(a, b)
         return z3.BoolVal(c) if isinstance(c, bool) else c
+    if m >= 24 and all(isinstance(v, SBV) for v in reps):
+        sym = [i for i, v in enumerate(reps) if not z3.is_bv_value(z3.simplify(v.e))]
+        if len(sym) <= 4:
+            return _sparse_unique(ctx, reps, mult, rep_of, sym, dtype, n)
     first = []
     for i in range(m):
         cs = [z3.Not(eqz(reps[i], reps[j])) for j in range(i)]
@@ -1199,6 +1208,52 @@ def forked_unique(vals, dtype):
                                               for v, mu in zip(reps, mult)])), real_np.int64))
     return (SArray.from_elems(lut, dtype), SArray.from_elems(inv, real_np.int64),
             SArray.from_elems(cs, real_np.int64))
+
+
+def _sparse_unique(ctx, reps, mult, rep_of, sym, dtype, n):
+    """np.unique for many concrete values and a few symbolic ones: the concrete ones are sorted concretely; for each
+    symbolic value the explorer forks on "equal to table entry j" / "new, with r entries below it" (only the feasible
+    cases), so the table layout is concrete on every path and the label itself stays symbolic inside its gap."""
+    dt = real_np.dtype(dtype)
+    signed = dt.kind == "i"
+    bits = dt.itemsize * 8
+
+    def conc(v):
+        x = z3.simplify(v.e).as_long()
+        return x - (1 << bits) if signed and x >= 1 << (bits - 1) else x
+    symset = set(sym)
+    cvals = sorted({conc(v) for i, v in enumerate(reps) if i not in symset})
+    L = [SBV.const(c, dt) for c in cvals]                 # sorted distinct table, grows by insertion
+    lt = (lambda a, b: a < b) if signed else z3.ULT
+    where = {}                                            # symbolic representative -> table position
+    for i in sym:
+        v = reps[i]
+        rank = z3.Sum([z3.If(lt(l.e, v.e), 1, 0) for l in L]) if L else z3.IntVal(0)
+        r = ctx.concretize(rank)
+        if r < len(L) and ctx.decide(v.e == L[r].e):
+            where[i] = ("old", r)
+            continue
+        L = L[:r] + [v] + L[r:]
+        for j, (kind, q) in list(where.items()):
+            if q >= r:
+                where[j] = (kind, q + 1)
+        where[i] = ("new", r)
+    k = len(L)
+    index = {}
+    for j, l in enumerate(L):
+        le = z3.simplify(l.e)
+        if z3.is_bv_value(le):
+            index[le.as_long()] = j
+    inv_rep = []
+    for i, v in enumerate(reps):
+        j = where[i][1] if i in symset else index[z3.simplify(v.e).as_long()]
+        inv_rep.append(SBV.const(j, real_np.int64))
+    inv = [inv_rep[r] for r in rep_of]
+    counts = [0] * k
+    for i, mu in enumerate(mult):
+        counts[z3.simplify(inv_rep[i].e).as_long()] += mu
+    cs = [SBV.const(c, real_np.int64) for c in counts]
+    return (SArray.from_elems(L, dt), SArray.from_elems(inv, real_np.int64), SArray.from_elems(cs, real_np.int64))
 
 
 def h_unique(ar, return_index=False, return_inverse=False, return_counts=False, axis=None, **kw):
